@@ -149,7 +149,8 @@ CHECKS.update({
  "C16": _partial("C16", "the memory clause: scratch arrays of normalizeMultiPolygon/findPolygonForHole and the duplicate-node path of addVertexNode are freed on every path "
                  "without double free; a local vertex graph is destroyed on every path once initialised; cellsToLinkedMultiPolygon destroys the result before returning an error; "
                  "a hole that cannot be placed is freed and the hole loop is only left after every collected hole was visited; every struct type the builders allocate is freed in the call "
-                 "tree of destroyLinkedMultiPolygon / destroyVertexGraph; two structural necessary conditions of the hole placement (loop/bounding-box pairing, arrays forwarded with their length).",
+                 "tree of destroyLinkedMultiPolygon / destroyVertexGraph; two structural necessary conditions of the hole placement (loop/bounding-box pairing, arrays forwarded with their length); "
+                 "the tolerance with which edge end points are matched is a constant below a quarter of the average res-15 edge (from the library's own edge-length table), so distinct vertices are never identified.",
                  "the outline itself: one polygon per component, winding, closedness, enclosed area (depends on bit-level agreement of vertex coordinates and a float hash).",
                  "R-ALLOC allocation typestate; R-OWN ownership-protocol rules over LLVM IR (incl. L6: no object is handed to addNewLinkedPolygon twice; L7: the hole loop visits every collected hole); "
                  "R-SIB pairing rules (a loop keeps the bounding box it was tested with; candidate arrays are forwarded with their length)"),
